@@ -150,6 +150,11 @@ _CONSTANT_COMPARATORS = {
 }
 
 
+# The raw value of a "[*]" index path step.  Not a string: a key path step may
+# be spelled '*' too.
+ANY_INDEX = object()
+
+
 def object_path_component_cmp(comp1, comp2):
     """
     Compare a string/int to another string/int; this induces an ordering over
@@ -157,11 +162,12 @@ def object_path_component_cmp(comp1, comp2):
     object paths.
 
     Ints and strings compare as usual to each other; ints compare less than
-    strings.
+    strings.  The "[*]" index step (ANY_INDEX) comes after all ints and before
+    all strings.
 
     Args:
-        comp1: An object path component (string or int)
-        comp2: An object path component (string or int)
+        comp1: An object path component (string, int or ANY_INDEX)
+        comp2: An object path component (string, int or ANY_INDEX)
 
     Returns:
         <0, 0, or >0 depending on whether the first arg is less, equal or
@@ -172,6 +178,14 @@ def object_path_component_cmp(comp1, comp2):
     if (isinstance(comp1, int) and isinstance(comp2, int)) \
             or (isinstance(comp1, str) and isinstance(comp2, str)):
         result = generic_cmp(comp1, comp2)
+
+    elif comp1 is ANY_INDEX or comp2 is ANY_INDEX:
+        if comp1 is comp2:
+            result = 0
+        elif comp1 is ANY_INDEX:
+            result = -1 if isinstance(comp2, str) else 1
+        else:
+            result = 1 if isinstance(comp1, str) else -1
 
     # one is int, one is string.  Let's say ints come before strings.
     elif isinstance(comp1, int):
@@ -187,7 +201,7 @@ def object_path_to_raw_values(path):
     """
     Converts the given ObjectPath instance to a list of strings and ints.
     All property names become strings, regardless of whether they're *_ref
-    properties; "*" index steps become that string; and numeric index steps
+    properties; "*" index steps become ANY_INDEX; and numeric index steps
     become integers.
 
     Args:
@@ -201,7 +215,9 @@ def object_path_to_raw_values(path):
         if isinstance(comp, ListObjectPathComponent):
             yield comp.property_name
 
-            if comp.index == "*" or isinstance(comp.index, int):
+            if comp.index == "*":
+                yield ANY_INDEX
+            elif isinstance(comp.index, int):
                 yield comp.index
             else:
                 # in case the index is a stringified int; convert to an actual
